@@ -9,7 +9,7 @@ import threading
 import warnings
 
 LEVEL = "model_checking"
-RULE = ("Blocked: every thread program of call depth 1..4 with 0..3 nested `with` per level (sum <= 4), parked in Event.wait; "
+RULE = ("Blocked: every thread program of call depth 1..4 with 0..3 `with` managers per level (sum <= 4; the innermost level's managers as nested statements and as one multi-item statement, plus a with inside a for inside a with), parked in Event.wait in the innermost body and inside the __enter__ and the __exit__ of each manager of the innermost level (entering manager not listed, exiting manager listed last with is_exiting); "
         "extract(thread) must equal the thread's real f_back chain (walked independently from sys._current_frames) with exact "
         "contexts on every user frame; not-started and finished threads have no frames. Racing: a target thread runs a program "
         "whose consecutive gates differ in block stack and value stack (nested withs entered/left, loop iterations, call "
@@ -73,52 +73,116 @@ class M(object):
 
 # ------------------------------------------------------------------ blocked leg
 def blocked_programs():
+    """(nests, form, park): nests[lvl] = number of managers in level lvl's function; form of the LAST level's managers:
+    'nested' with statements or one 'items' statement; park = where the thread blocks: in the innermost body, or inside
+    the __enter__ / __exit__ of manager j of the last level (the other managers of that frame being active)."""
     for depth in range(1, 5):
         for nests in itertools.product(range(0, 4), repeat=depth):
             if sum(nests) > 4:
                 continue
-            yield list(nests)
+            k = nests[-1]
+            forms = ("nested", "items") if k >= 2 else ("nested",)
+            for form in forms:
+                yield list(nests), form, ["body"]
+                for j in range(k):
+                    yield list(nests), form, ["enter", j]
+                    yield list(nests), form, ["exit", j]
+    # a with inside a for inside a with, parked in the inner manager's __enter__ / body / __exit__
+    for park in (["body"], ["enter", 1], ["exit", 1], ["exit", 0]):
+        yield [2], "loop", park
 
 
-def build_blocked(nests):
+def build_blocked(nests, form="nested"):
     lines = []
     withs = {}  # level -> [(line, varname)]
     for lvl, k in enumerate(nests):
         lines.append("def f%d(rt):" % lvl)
         ind = 1
         withs[lvl] = []
-        for j in range(k):
+        last = lvl + 1 == len(nests)
+        if last and form == "items" and k >= 2:
             ln = len(lines) + 1
-            if j % 2 == 0:
-                lines.append("    " * ind + "with rt.mk(%d, %d) as v%d:" % (lvl, j, j))
-                withs[lvl].append((ln, "v%d" % j))
-            else:
-                lines.append("    " * ind + "with rt.mk(%d, %d):" % (lvl, j))
-                withs[lvl].append((ln, None))
+            items = []
+            for j in range(k):
+                if j % 2 == 0:
+                    items.append("rt.mk(%d, %d) as v%d" % (lvl, j, j))
+                    withs[lvl].append((ln, "v%d" % j))
+                else:
+                    items.append("rt.mk(%d, %d)" % (lvl, j))
+                    withs[lvl].append((ln, None))
+            lines.append("    with %s:" % ", ".join(items))
             ind += 1
+        elif last and form == "loop":
+            lines.append("    with rt.mk(%d, 0) as v0:" % lvl)
+            withs[lvl].append((len(lines), "v0"))
+            lines.append("        for i in range(1):")
+            lines.append("            with rt.mk(%d, 1) as v1:" % lvl)
+            withs[lvl].append((len(lines), "v1"))
+            ind = 4
+        else:
+            for j in range(k):
+                ln = len(lines) + 1
+                if j % 2 == 0:
+                    lines.append("    " * ind + "with rt.mk(%d, %d) as v%d:" % (lvl, j, j))
+                    withs[lvl].append((ln, "v%d" % j))
+                else:
+                    lines.append("    " * ind + "with rt.mk(%d, %d):" % (lvl, j))
+                    withs[lvl].append((ln, None))
+                ind += 1
         if lvl + 1 < len(nests):
             lines.append("    " * ind + "f%d(rt)" % (lvl + 1))
         else:
-            lines.append("    " * ind + "rt.park()")
+            lines.append("    " * ind + "rt.park_body()")
     return "\n".join(lines) + "\n", withs
 
 
-def check_blocked(nests):
+class BM(object):
+    """manager of the blocked leg: can park the thread inside its __enter__ or __exit__"""
+
+    def __init__(s, rt, n):
+        s.rt = rt
+        s.n = n
+        s.state = "new"
+
+    def __repr__(s):
+        return "BM%s" % (s.n,)
+
+    def __enter__(s):
+        if s.rt.park_at == ("enter",) + s.n:
+            s.rt.park()
+        s.state = "active"
+        return s
+
+    def __exit__(s, *a):
+        s.state = "exiting"
+        if s.rt.park_at == ("exit",) + s.n:
+            s.rt.park()
+        s.state = "done"
+        return False
+
+
+def check_blocked(nests, form="nested", park=("body",)):
     import stackscope
-    src, withs = build_blocked(nests)
+    src, withs = build_blocked(nests, form)
     ns = {}
     exec(compile(src, "<thr>", "exec"), ns)
+    lastlvl = len(nests) - 1
 
     class Rt(object):
         def __init__(s):
             s.mgrs = {}
             s.ready = threading.Event()
             s.gate = threading.Event()
+            s.park_at = None if park[0] == "body" else (park[0], lastlvl, park[1])
 
         def mk(s, lvl, j):
-            m = M((lvl, j))
+            m = BM(s, (lvl, j))
             s.mgrs.setdefault(lvl, []).append(m)
             return m
+
+        def park_body(s):
+            if s.park_at is None:
+                s.park()
 
         def park(s):
             s.ready.set()
@@ -165,7 +229,8 @@ def check_blocked(nests):
             nm = f.funcname
             if nm.startswith("f") and nm[1:].isdigit() and f.pyframe.f_code.co_filename == "<thr>":
                 lvl = int(nm[1:])
-                exp = [(m, False, False, withs[lvl][j][1], withs[lvl][j][0]) for j, m in enumerate(rt.mgrs.get(lvl, []))]
+                exp = [(m, False, m.state == "exiting", withs[lvl][j][1], withs[lvl][j][0]) for j, m in enumerate(rt.mgrs.get(lvl, []))
+                       if m.state in ("active", "exiting")]
                 got = [(c.obj, c.is_async, c.is_exiting, c.varname, c.start_line) for c in f.contexts]
                 if [(id(a), b, c_, d, e) for a, b, c_, d, e in got] != [(id(a), b, c_, d, e) for a, b, c_, d, e in exp]:
                     problems.append("contexts of %s: %r expected %r" % (nm, got, exp))
@@ -181,8 +246,8 @@ def check_blocked(nests):
 
 
 def run_blocked(ctx):
-    for i, nests in enumerate(blocked_programs()):
-        problems, src = check_blocked(nests)
+    for i, (nests, form, park) in enumerate(blocked_programs()):
+        problems, src = check_blocked(nests, form, park)
         ctx.count("blocked_programs")
         ctx.count("evaluations")
         ctx.count("traces_validated_against_impl")
@@ -190,9 +255,9 @@ def run_blocked(ctx):
         ctx.count("transitions", 3)
         ctx.count("distinct_nontrivial")
         if problems:
-            ctx.violation({"leg": "blocked", "nests": nests}, "; ".join(problems)[:1500], "blocked")
+            ctx.violation({"leg": "blocked", "nests": nests, "form": form, "park": park}, "; ".join(problems)[:1500], "blocked")
         if i % 97 == 0:
-            ctx.sample({"leg": "blocked", "nests": nests, "src": src})
+            ctx.sample({"leg": "blocked", "nests": nests, "form": form, "park": park, "src": src})
 
 
 # ------------------------------------------------------------------ racing legs
@@ -612,7 +677,7 @@ def run(ctx):
 
 def replay(case):
     if case.get("leg") == "blocked":
-        problems, src = check_blocked(case["nests"])
+        problems, src = check_blocked(case["nests"], case.get("form", "nested"), case.get("park", ["body"]))
         return [{"detail": p} for p in problems]
     which = case["leg"]
     R = Runner(case["target"])
